@@ -104,6 +104,13 @@ func (r *InboundRequestSingleFlight) GetOrCreate(ctx *Context, response *GraphQL
 			if request.Err != nil {
 				return nil, request.Err
 			}
+			if request.Data == nil {
+				// We registered after the leader had already looked for followers, so it
+				// published no data. Nothing is shared: resolve on our own, without an
+				// inflight request (finishing the leader's request again would close its
+				// channel a second time and delete another leader's entry).
+				return nil, nil
+			}
 			return request, nil
 		case <-ctx.ctx.Done():
 			return nil, ctx.ctx.Err()
